@@ -219,6 +219,11 @@ func runGates(c *Ctx, specs []GateSpec) {
 			res := f.CheckGateIn(region, from, targets, g, sp.Assume)
 			key := base + "." + g.ID
 			pos := c.P.Pos(fd.Decl.Pos())
+			if !res.OK {
+				if ok, how := delegatedGate(c.P, f, fd.Obj, region, from, targets, g, sp.Assume, 0); ok {
+					res = GateResult{OK: true, Msg: fmt.Sprintf("guard %q enforced %s", g.ID, how)}
+				}
+			}
 			if res.OK {
 				c.OK(key, pos, fmt.Sprintf("%s: %s is gated: %s", FuncKey(fd.Obj), tdesc, res.Msg))
 			} else {
@@ -241,6 +246,11 @@ func runGates(c *Ctx, specs []GateSpec) {
 		for _, mc := range sp.MustCall {
 			ok, path := f.CheckMustCall(from, targets, sp.Assume, mc...)
 			key := base + ".must-call." + shortSym(mc[0])
+			if !ok {
+				if ok2, _ := delegatedMustCall(c.P, f, fd.Obj, from, targets, sp.Assume, mc, 0); ok2 {
+					ok = true
+				}
+			}
 			if ok {
 				c.OK(key, c.P.Pos(fd.Decl.Pos()), fmt.Sprintf("%s: every path to the %s passes a call of %s", FuncKey(fd.Obj), tdesc, strings.Join(mc, "|")))
 			} else {
